@@ -4,6 +4,8 @@ import (
 	"bytes"
 	"flag"
 	"fmt"
+	"github.com/unification-com/mainchain/x/beacon"
+	"github.com/unification-com/mainchain/x/wrkchain"
 	"math/big"
 	"os"
 	"path/filepath"
@@ -1525,6 +1527,7 @@ func cmdStore(args []string) {
 	if len(eh) > 0 && len(eh[0]) > 3 {
 		samples = append(samples, eh[0][2], eh[0][3])
 	}
+	kinds["genesis_import.reads"] = genesisImportIsolation(c, mon)
 	writeJSON(filepath.Join(*out, "stats_store.json"), map[string]interface{}{
 		"files": files, "evaluations": total, "distinct_nontrivial": len(distinct),
 		"rule":          "(x/beacon and x/enterprise: see rule_bcn_ent) sequences of real keeper store-accessor calls of x/wrkchain (params, highest id, WRKChains, storage limits, block records: set / get / has / listings ascending, descending, paginated, early stop, lowest height in state) and x/stream (params, streams keyed by address pairs of 1..255 bytes incl. byte-prefixes of one another: set / get / is / delete / listing with the pair parsed from the key, unencodable times) on a cached context of the real application; ids and heights from a boundary pool (1..4, 2^8, 2^16, 2^32, 2^63, 2^64-1); the translated accessors replay each sequence from the empty store (vm_compute) and a Go shadow map decides read-your-write / non-interference / listing completeness on the implementation",
@@ -1533,4 +1536,66 @@ func cmdStore(args []string) {
 		"genesis_notes": storeGenesisNotes,
 		"samples":       samples, "go_monitor_failures": append([]monFailure{}, mon.fails...),
 	})
+}
+
+// genesisImportIsolation (C18): InitGenesis of the two registry modules writes several records per registration in one
+// go; every record must afterwards be read back under its own (id, height / timestamp id) and the listing must hold
+// all of them, ascending - on the cached context the import ran in and after its writes were flushed to the parent.
+func genesisImportIsolation(c *chain, mon *storeMon) int {
+	heights := []uint64{1, 2, 255, 256, 65536, 1 << 63, 1<<64 - 1}
+	checks := 0
+	parent, _ := c.ctx().CacheContext()
+	func() {
+		defer func() {
+			if e := recover(); e != nil {
+				mon.fail(-1, fmt.Sprintf("genesis import of several records per registration panicked: %v", e))
+			}
+		}()
+		ctx, write := parent.CacheContext()
+		wipeStore(ctx, c, wrktypes.StoreKey)
+		wipeStore(ctx, c, bcntypes.StoreKey)
+		wg := wrktypes.GenesisState{Params: wrktypes.NewParams(1000, 10, 5, "nund", 50, 600000), StartingWrkchainId: 1<<64 - 1}
+		bg := bcntypes.GenesisState{Params: bcntypes.NewParams(1000, 10, 5, "nund", 50, 600000), StartingBeaconId: 1<<64 - 1}
+		ids := []uint64{1, 2, 1<<64 - 2}
+		for _, id := range ids {
+			we := wrktypes.WrkChainExport{Wrkchain: wrktypes.WrkChain{WrkchainId: id, Moniker: fmt.Sprintf("w%d", id), Name: "n", Genesis: "g", Type: "t", Lastblock: heights[len(heights)-1],
+				NumBlocks: uint64(len(heights)), LowestHeight: heights[0], RegTime: 7, Owner: c.addrOf(1).String()}, InStateLimit: 50}
+			be := bcntypes.BeaconExport{Beacon: bcntypes.Beacon{BeaconId: id, Moniker: fmt.Sprintf("b%d", id), Name: "n", LastTimestampId: heights[len(heights)-1], FirstIdInState: heights[0],
+				NumInState: uint64(len(heights)), RegTime: 7, Owner: c.addrOf(1).String()}, InStateLimit: 50}
+			for _, h := range heights {
+				we.Blocks = append(we.Blocks, wrktypes.WrkChainBlockGenesisExport{He: h, Bh: fmt.Sprintf("bh-%d-%d", id, h), Ph: "p", St: 3})
+				be.Timestamps = append(be.Timestamps, bcntypes.BeaconTimestampGenesisExport{Id: h, T: 5, H: fmt.Sprintf("h-%d-%d", id, h)})
+			}
+			wg.RegisteredWrkchains = append(wg.RegisteredWrkchains, we)
+			bg.RegisteredBeacons = append(bg.RegisteredBeacons, be)
+		}
+		wrkchain.InitGenesis(ctx, c.app.WrkchainKeeper, wg)
+		beacon.InitGenesis(ctx, c.app.BeaconKeeper, bg)
+		verify := func(where string, x sdk.Context) {
+			for _, id := range ids {
+				for _, h := range heights {
+					checks++
+					if b, ok := c.app.WrkchainKeeper.GetWrkChainBlock(x, id, h); !ok || b.Height != h || b.Blockhash != fmt.Sprintf("bh-%d-%d", id, h) {
+						mon.fail(-1, fmt.Sprintf("genesis import (%s): WRKChain %d height %d reads back as (%v, found %v): records of one import alias each other", where, id, h, b, ok))
+					}
+					if t, ok := c.app.BeaconKeeper.GetBeaconTimestampByID(x, id, h); !ok || t.TimestampId != h || t.Hash != fmt.Sprintf("h-%d-%d", id, h) {
+						mon.fail(-1, fmt.Sprintf("genesis import (%s): BEACON %d timestamp %d reads back as (%v, found %v): records of one import alias each other", where, id, h, t, ok))
+					}
+				}
+				if n := len(c.app.WrkchainKeeper.GetAllWrkChainBlockHashes(x, id)); n != len(heights) {
+					mon.fail(-1, fmt.Sprintf("genesis import (%s): WRKChain %d lists %d of %d imported records", where, id, n, len(heights)))
+				}
+				if n := len(c.app.BeaconKeeper.GetAllBeaconTimestamps(x, id)); n != len(heights) {
+					mon.fail(-1, fmt.Sprintf("genesis import (%s): BEACON %d lists %d of %d imported timestamps", where, id, n, len(heights)))
+				}
+			}
+			if n := len(c.app.WrkchainKeeper.GetAllWrkChains(x)); n != len(ids) {
+				mon.fail(-1, fmt.Sprintf("genesis import (%s): %d of %d imported WRKChains listed", where, n, len(ids)))
+			}
+		}
+		verify("in the importing context", ctx)
+		write()
+		verify("after flushing to the parent context", parent)
+	}()
+	return checks
 }
